@@ -1,6 +1,6 @@
 (* C15HevcSliceInterProofs.v — the inter-prediction part of the HEVC slice segment header:
    num_ref_idx override, ref_pic_lists_modification (entry width Ceil(Log2(NumPicTotalCurr)), the
-   model's uint8 NumPicTotalCurr under the guard of finding C15-F11), mvd_l1_zero / cabac_init /
+   model's uint8 NumPicTotalCurr = (7-55)), mvd_l1_zero / cabac_init /
    collocated_*, pred_weight_table, five_minus_max_num_merge_cand, use_integer_mv_flag. *)
 From V.lib Require Import Base.
 From V.c13 Require Import C13Spec C13Model.
@@ -13,23 +13,21 @@ Local Notation "x <- m ;; k" := (bind m (fun x => k))
 
 (* ------------------------------------------------------------------ NumPicTotalCurr *)
 Lemma go_npt1_eq sp pp v :
-  hslice_rps_guard sp pp v = true -> hs_inter pp v = true -> sx_lists_modification_present_flag pp = true ->
   hs_num_pic_total_curr sp pp v < 256 ->
   match pp_scc (expected_hpps pp) with
   | Some sc => if ps_curr_pic_ref sc then u8 (go_npt sp pp v + 1) else go_npt sp pp v
   | None => go_npt sp pp v
   end = hs_num_pic_total_curr sp pp v.
 Proof.
-  intros Hg Hi Hl Ht. unfold hslice_rps_guard in Hg. rewrite Hi, Hl in Hg. cbn [andb negb orb] in Hg.
-  apply N.eqb_eq in Hg.
+  intros Ht.
   assert (E : go_npt sp pp v + (if hs_curr_pic_ref pp then 1 else 0) = hs_num_pic_total_curr sp pp v).
-  { unfold go_npt, hs_num_pic_total_curr in *. rewrite Hg in *.
+  { unfold go_npt, hs_num_pic_total_curr in *.
+    rewrite count_in_use_curr by lia.
     destruct (hs_nidr pp v) eqn:Hn.
     - unfold lt_useds in *.
       set (a := d_num_used (hs_curr_rps sp pp v)) in *.
       set (l1 := map (fun e => snd (hs_sps_lt sp (fst (fst e)))) (hs_lt_sps_entries sp pp v)) in *.
       set (l2 := map (fun e => snd (fst (fst e))) (hs_lt_pics_entries sp pp v)) in *.
-      rewrite (hu8_id a) by lia.
       rewrite lt_acc_small by (rewrite countb_app; lia).
       rewrite countb_app. lia.
     - unfold hs_curr_rps, hs_lt_sps_entries, hs_lt_pics_entries, hs_lt_on. rewrite Hn. cbn [andb map].
@@ -255,7 +253,7 @@ Definition sl_inter (is_p is_b : bool) (npt : N) (tmvp cat_nz : bool) (hs : hsps
 
 Lemma parses_sl_inter raw sp pp v pos :
   hsps_valid sp = true -> hpps_valid pp = true -> hslice_valid sp pp v = true ->
-  hslice_rps_guard sp pp v = true -> hs_main pp v = true ->
+  hs_main pp v = true ->
   parses raw (sl_inter (sx_slice_type v =? 1) (sx_slice_type v =? 0) (go_npt sp pp v) (hs_tmvp sp pp v)
                        (hs_cat_nz sp) (expected_hsps sp) (expected_hpps pp)) pos
     (opt_bits (hs_inter pp v) (ser_hslice_inter sp pp v))
@@ -280,7 +278,7 @@ Lemma parses_sl_inter raw sp pp v pos :
      (if hs_inter pp v then sx_five_minus_max_num_merge_cand v else 0),
      hs_inter pp v && hs_mvres2 sp && sx_use_integer_mv_flag v).
 Proof.
-  intros Hs Hp Hv Hg Hm.
+  intros Hs Hp Hv Hm.
   assert (EP : hs_is_p pp v = (sx_slice_type v =? 1)) by (unfold hs_is_p; rewrite Hm; reflexivity).
   assert (EB : hs_is_b pp v = (sx_slice_type v =? 0)) by (unfold hs_is_b; rewrite Hm; reflexivity).
   rewrite <- EP, <- EB. unfold sl_inter. fold (hs_inter pp v).
@@ -320,7 +318,7 @@ Proof.
                       else None).
     rewrite epp_lists_mod.
     destruct (sx_lists_modification_present_flag pp) eqn:Hlm.
-    - rewrite (go_npt1_eq sp pp v Hg Hi Hlm Ht).
+    - rewrite (go_npt1_eq sp pp v Ht).
       assert (Hr : hs_rplm sp pp v = (1 <? hs_num_pic_total_curr sp pp v))
         by (unfold hs_rplm; rewrite Hi, Hlm; reflexivity).
       rewrite Hr. destruct (1 <? hs_num_pic_total_curr sp pp v) eqn:H1; cbn [opt_bits].
